@@ -196,6 +196,9 @@ class Kernel:
             (b0, f0, e0, w0), (b1, f1, e1, w1) = parts
             if b0 == b1 and f0 == TRUE and f1 == TRUE and w0 and w1:
                 return (b0, TRUE, ("tup", (e0, e1)), True)
+            if b0 == b1 and f0 == f1 and w0 and w1:
+                # two columns cut down by the same test of the same base list: the same positions survive in both
+                return (b0, f0, ("tup", (e0, e1)), True)
             return None
         if t[0] == "compr":
             L = self.sx.loops[t[1]]
@@ -219,9 +222,43 @@ class Kernel:
         f1 = self.canon(flt, L.id)
         e1 = self.canon(elt, L.id)
         if inner is None:
-            return (self.canon_top(L.source), f1, e1, L.whole)
+            S = self.canon_top(L.source)
+            return (S, self._at_positions(f1, S), self._at_positions(e1, S), L.whole)
         S, F0, E0, w0 = inner
-        return (S, simp(("and", (F0, self._rebase(f1, E0)))), self._rebase(e1, E0), w0 and L.whole)
+        return (S, self._at_positions(simp(("and", (F0, self._rebase(f1, E0)))), S), self._at_positions(self._rebase(e1, E0), S), w0 and L.whole)
+
+    def _at_positions(self, t, S):
+        """`X[pos]` with pos a position of a list that corresponds to the base list S position by position (S itself, or an
+        unfiltered map of the whole of S - a 'column') is the element expression of X at the base element: index tables such as
+        `live = [i for i, t in enumerate(targets) if alive(t)]` walked by `[S[i] for i in live]` are the filter they abbreviate."""
+        def positional(lid):
+            L = self.sx.loops.get(lid)
+            if L is None or not L.enumerated or not L.whole:
+                return False
+            if self.canon_top(L.source) == S:
+                return True
+            le = self.listexpr(L.source, 3)
+            return le is not None and le[0] == S and le[1] == TRUE and le[3]
+
+        def f(x):
+            if x[0] == "idx" and isinstance(x[2], tuple) and x[2] and x[2][0] == "pos" and positional(x[2][1]):
+                if self.canon_top(x[1]) == S:
+                    return ("e",)
+                le = self.listexpr(x[1], 3)
+                if le is not None and le[0] == S and le[1] == TRUE and le[3]:
+                    return le[2]
+            return None
+        r = subst(t, f)
+        if r == t:
+            return t
+
+        def g(x):
+            if x == ("idx", ("e",), C(0)):
+                return ("p",)
+            if x == ("idx", ("e",), C(1)):
+                return ("t",)
+            return None
+        return self.canon_top(deep_simp(subst(deep_simp(r), g)))
 
     def _list_arg(self, t):
         """For max/min/sum arguments: (listexpr, extra constant elements) for X, [c..] + X, X + [c..]."""
@@ -264,6 +301,29 @@ class Kernel:
                     base_l = le_l[0] if le_l is not None else self.canon_top(Lb.source)
                     if Lb.kind == "for" and base_l == base_s and Lb.init.get(body[2]) == ("list", ()):
                         return self.kfold(body)
+        if t[0] == "ite" and len(t) == 4 and (is_const(t[2]) != is_const(t[3])):
+            # `if not xs: return c` in front of a SUM / MAX / MIN over xs that starts from the same constant c: the fold leaves c for
+            # an empty xs anyway (an explicit edge case, not another computation)
+            c_, body, cond = (t[2], t[3], simp(("not", t[1]))) if is_const(t[2]) else (t[3], t[2], t[1])
+            nonempty = self._nonempty_of(cond)
+            if nonempty is not None:
+                kb = self.kfold(body)
+                if kb is not None and kb.kind in ("SUM", "EXT") and kb.init is not None and is_const(kb.init) and kb.init == c_ \
+                        and type(kb.init[1]) is type(c_[1]) and kb.source == nonempty and not getattr(kb, "has_break", False) and not getattr(kb, "has_return", False):
+                    return kb
+        if t[0] == "ite" and len(t) == 4 and t[1][0] == "cmp" and t[1][1] == "==" and C(1) in (t[1][2], t[1][3]):
+            # `if len(xs) == 1: return key(xs[0])` in front of a MIN / MAX over xs that is seeded with its first element: for a
+            # one-element list that fold is the key of the element anyway
+            ln = t[1][3] if t[1][2] == C(1) else t[1][2]
+            if ln[0] == "call" and ln[1] == "len" and len(ln[2]) == 1:
+                kb = self.kfold(t[3])
+                le = self.listexpr(ln[2][0])
+                if kb is not None and kb.kind == "EXT" and kb.init == ("first",) and le is not None and kb.source == le[0] and kb.filter == le[1]:
+                    e0 = simp(("idx", ln[2][0], C(0)))
+                    key_at_first = deep_simp(subst(kb.term, lambda x: e0 if x == ("e",) else (simp(("idx", e0, C(0))) if x == ("p",) else (simp(("idx", e0, C(1))) if x == ("t",) else None))))
+                    cand = self.canon_top(t[2])
+                    if cand == self.canon_top(key_at_first) or self._first_of(t[2], kb, ln[2][0]):
+                        return kb
         if t[0] == "ite" and len(t) == 4 and ("list", ()) not in (t[2], t[3]):
             # the same fold computed on two paths (in two call contexts): it is that fold
             ka, kb = self.kfold(t[2]), self.kfold(t[3])
@@ -358,6 +418,48 @@ class Kernel:
                 init = self._seed_init(extra[0], le[2], le[0])
             return KFold(kind="EXT", sense=t[1], strict=None, init=init, **base)
         return None
+
+    def _first_of(self, t, kb, xs):
+        """t is the fold's key evaluated at the first element of the list xs (xs = filter/map of the base list)."""
+        le = self.listexpr(xs)
+        if le is None:
+            return False
+        # xs[0] = E(base element b0) for the first base element passing the filter: the key over the base element, read at xs[0]
+        # through the element map, is what a seed `key(xs[0])` is - compare with the seed recogniser's own notion
+        lp = kb.loop
+        if lp is not None:
+            r = self.first_elem_init(t, lp)
+            if r is not None and r == kb.term:
+                return True
+        return False
+
+    def _nonempty_of(self, cond):
+        """Base list X when cond says 'X (or a list with one entry per element of X) is not empty', else None."""
+        x = None
+        if cond[0] == "truthy":
+            x = cond[1]
+            while x[0] == "call" and x[1] == "bool" and len(x[2]) == 1:
+                x = x[2][0]
+        elif cond[0] == "cmp" and cond[1] in ("!=", "<", ">", ">=", "<="):
+            a, b = cond[2], cond[3]
+            def ln(u):
+                return u[2][0] if u[0] == "call" and u[1] == "len" and len(u[2]) == 1 else None
+            if cond[1] == "!=" and C(0) in (a, b):
+                x = ln(b if a == C(0) else a)
+            elif cond[1] == "<" and a == C(0):
+                x = ln(b)
+            elif cond[1] == ">" and b == C(0):
+                x = ln(a)
+            elif cond[1] == "<=" and a == C(1):
+                x = ln(b)
+            elif cond[1] == ">=" and b == C(1):
+                x = ln(a)
+        if x is None:
+            return None
+        le = self.listexpr(x)
+        if le is not None:
+            return le[0] if le[1] == TRUE and le[3] else None
+        return self.canon_top(x)
 
     def _seed_init(self, seed, key_term, base):
         """Canonical start value of min/max([seed] + keys): ('first',) when the seed is the key evaluated at the first element of
